@@ -220,8 +220,10 @@ def main(ck):
                 if mark is None and o.get("series") and shape_query(o["shape"], Intern()) is not None:
                     o["series"] = []
                     mark = True
-        texts.append(("canary", hdr + "Definition cases : list ccase := [\n%s\n].\n"
-                      "Definition M := Eval vm_compute in mismatches true true cases.\nPrint M.\n" % case_coq(can, laters[0])[0]))
+        can_txt = case_coq(can, laters[0])[0]
+        for nm, fl in (("canary_cur", "true true"), ("canary_rep", "false false")):
+            texts.append((nm, hdr + "Definition cases : list ccase := [\n%s\n].\n"
+                          "Definition M := Eval vm_compute in mismatches %s cases.\nPrint M.\n" % (can_txt, fl)))
         res = ck.coq_eval_many(texts, timeout=900)
         evaluated = True
         for (ca, co), (rc2, o) in zip(variants, res[:4]):
@@ -232,11 +234,19 @@ def main(ck):
                 continue
             for a, b in lst:
                 mm.setdefault((ca, co), {}).setdefault(a, []).append(b)
-        can_m = parse_mism(res[4][1]) if res[4][0] == 0 else None
-        base_m = mm.get((True, True), {}).get(0, [])
-        if mark and (can_m is None or len(can_m) <= len(base_m)):
-            ck.broken.append("C13 evaluator canary: an emptied observation was not reported (%s)" % (can_m,))
-            evaluated = False
+        if mark and evaluated:
+            seen_more = False
+            for (rc2, o), v in zip(res[4:6], ((True, True), (False, False))):
+                can_m = parse_mism(o) if rc2 == 0 else None
+                if can_m is not None and len(can_m) > len(mm.get(v, {}).get(0, [])):
+                    seen_more = True
+            if not seen_more:
+                ck.broken.append("C13 evaluator canary: an emptied observation was not reported")
+                evaluated = False
+    if os.environ.get("C13_DEBUG"):
+        ck.log("mismatches per variant:", {str(k): v for k, v in mm.items()})
+        open(os.path.join(ck.verif, "work", "c13dev", "rendered.txt"), "w").write("\n".join(rendered))
+        open(os.path.join(ck.verif, "work", "c13dev", "hs.json"), "w").write(json.dumps(hs))
     # ---- verdicts
     stale = {F_PATHS, F_ALT, F_CACHE, F_KEYS, F_CROSS}
     what = {F_PATHS: "after DROP SERIES, reads that start from all series of the measurement (plain select, field filter, group by, "
